@@ -42,7 +42,7 @@ def gen_run(rng, seed):
         sp["cmds"] += [["sleep", rng.choice([0.001, 0.004, 0.02])], ["shutdown", "retry"]]
     else:
         # the limit must end the run: make sure the system is not left paused for ever
-        sp["cmds"] += [["sleep", 0.003], ["resume"], ["sleep", 1.0], ["shutdown", "retry"]]
+        sp["cmds"] += [["sleep", 0.003], ["resume", "retry"], ["sleep", 1.0], ["shutdown", "retry"]]
     sp["max_events"] = 30000
     sp["queue_size"] = rng.choice([1, 2, 5])
     return sp
